@@ -278,6 +278,13 @@ func (bridge *ExprBridge) EvaluateExpression(expression string, data map[string]
 			if err == nil {
 				return result, nil
 			}
+			// The program binds the registered functions; the environment path below would evaluate the
+			// same text with expr-lang's own abs/round/upper/... taking precedence over them and turn
+			// this error into a value the functions never produce (abs(round(NULL, 0)) = 0).
+			if bridge.isFunctionCall(expression) {
+				return nil, fmt.Errorf("failed to evaluate function call '%s': %v", expression, err)
+			}
+			return bridge.fallbackToCustomExpr(sqlText, data)
 		}
 	}
 
